@@ -15,8 +15,8 @@ PARTIAL = [
     "'no accepted input yields NaN/inf fitted values or NaN predictions at finite query points' end to end is a float-range "
     "statement (exp overflow, ill-conditioned Cholesky, optimiser): covered by the dirty-data fits as tests only",
     "covariance-function constructor arguments (cov_func_curry, cov_func) stay at valid defaults (they belong to C05/C19)",
-    "1-D input: DensityEstimator / FunctionEstimator treat it as one feature (tested, metamorphic); "
-    "TimeSensitiveDensityEstimator refuses it with ValueError; DimensionalityEstimator dies with IndexError (finding)",
+    "1-D input: DensityEstimator / FunctionEstimator / DimensionalityEstimator treat it as one feature (tested, metamorphic); "
+    "bitwise equal to the (n,1) form; TimeSensitiveDensityEstimator refuses it with ValueError",
 ]
 ASSUMPTIONS = [
     "CPython float(str) is taken as data: a str value is (text, result of float(text))",
@@ -245,8 +245,9 @@ SCALAR_OPS = [
     # name, driver prefix, implementation call
     ("float_or_int", "vfoi F", lambda V, v: V.validate_float_or_int(v, "p")),
     ("float_or_int?", "vfoi T", lambda V, v: V.validate_float_or_int(v, "p", optional=True)),
-    ("positive_float", "vpf F", lambda V, v: V.validate_positive_float(v, "p")),
-    ("positive_float?", "vpf T", lambda V, v: V.validate_positive_float(v, "p", optional=True)),
+    ("positive_float", "vpf F F", lambda V, v: V.validate_positive_float(v, "p")),
+    ("positive_float?", "vpf T F", lambda V, v: V.validate_positive_float(v, "p", optional=True)),
+    ("positive_float:inf", "vpf F T", lambda V, v: V.validate_positive_float(v, "p", allow_inf=True)),
     ("float", "vfl F", lambda V, v: V.validate_float(v, "p")),
     ("float?", "vfl T", lambda V, v: V.validate_float(v, "p", optional=True)),
     ("positive_int", "vpi F", lambda V, v: V.validate_positive_int(v, "p")),
@@ -283,6 +284,9 @@ def spec_float(spec):
     return None
 
 
+FLOAT_OVERFLOW = 2 ** 1024 - 2 ** 970
+
+
 def is_big_int(spec, bound=2 ** 63):
     if spec[0] == "I":
         i = int(spec[1])
@@ -316,20 +320,36 @@ def expected_refusal(name, spec):
         if k == "I":
             return "ok" if int(spec[1]) >= 0 else "ValueError"
         return "ValueError"
+    inf_ok = name.endswith(":inf")
     if base in ("float_or_int", "float", "positive_float") and k in ("F", "NPF", "B") and x is not None:
         if x != x:
             return "ValueError"
         if base == "positive_float":
-            return "ok" if x > 0 else "ValueError"
+            return "ok" if (x > 0 and (inf_ok or x != float("inf"))) else "ValueError"
         return "ok"
     if base in ("float_or_int", "float", "positive_float") and k == "S":
         try:
             v = float(spec[1])
         except ValueError:
             return "ValueError"
-        if v != v or (base == "positive_float" and not v > 0):
+        if v != v or (base == "positive_float" and not (v > 0 and (inf_ok or v != float("inf")))):
             return "ValueError"
         return "ok"
+    # Python ints: outside int64 (isnan-based validators) / beyond the double range (float()-based) -> ValueError
+    if k == "I":
+        i = int(spec[1])
+        if base in ("float_or_int", "float"):
+            return "ok" if -2 ** 63 <= i < 2 ** 63 else "ValueError"
+        if base == "positive_float":
+            return "ok" if (x is not None and x > 0) else "ValueError"
+        if base == "foin":
+            return "ValueError" if (x is None or ("+" in name and x < 0)) else "ok"
+        if base == "1d":
+            return "ValueError" if x is None else "ok"
+    if base in ("array", "foin", "1d") and k in ("L", "T") and is_big_int(spec, FLOAT_OVERFLOW) and not has_none(spec):
+        return "ValueError"
+    if base == "gp_type" and k not in ("S", "N", "E"):
+        return "ValueError"
     if base in ("float_or_int", "float", "positive_float") and k in ("L", "T", "O", "SP", "E"):
         return "ValueError"
     if base == "array" and k in ("B", "I", "F", "NPF", "O", "E"):
@@ -346,6 +366,8 @@ def post_ok(name, spec, r):
     if base == "positive_float":
         if not (isinstance(r, float) and r > 0):
             return f"accepted value {r!r} is not a positive float"
+        if r == float("inf") and not name.endswith(":inf"):
+            return "accepted value is infinite although a finite positive float is required"
     elif base in ("float_or_int", "float"):
         if not isinstance(r, (float, int)) or r != r:
             return f"accepted value {r!r} is NaN or not a number"
@@ -724,8 +746,8 @@ def case_ctor(ctx, res, p):
         g = dict(zip(CTOR_KEYS, got))
         bad = []
         for k in ("jitter", "ls_factor", "init_learn_rate", "ls"):
-            if g[k] is not None and not (isinstance(g[k], float) and g[k] > 0):
-                bad.append(f"{k}={g[k]!r} is not a positive float")
+            if g[k] is not None and not (isinstance(g[k], float) and 0 < g[k] < float("inf")):
+                bad.append(f"{k}={g[k]!r} is not a finite positive float")
         for k in ("mu", "rank"):
             if g[k] is not None and (not isinstance(g[k], (int, float)) or g[k] != g[k]):
                 bad.append(f"{k}={g[k]!r} is NaN or not a number")
@@ -756,7 +778,7 @@ def case_ctor(ctx, res, p):
         vname = {"jitter": "positive_float", "ls_factor": "positive_float", "init_learn_rate": "positive_float",
                  "ls": "positive_float?", "rank": "float_or_int?", "mu": "float?", "n_landmarks": "positive_int?",
                  "n_iter": "positive_int", "predictor_with_uncertainty": "bool", "jit": "bool", "check_rank": "bool?",
-                 "optimizer": "string:optimizer"}.get(k)
+                 "optimizer": "string:optimizer", "gp_type": "gp_type"}.get(k)
         exp = expected_refusal(vname, args[k]) if vname else None
         if k == "d_method":
             exp = "TypeError" if args[k][0] != "S" else ("ok" if args[k][1] in ("fractal", "embedding") else "ValueError")
@@ -896,6 +918,8 @@ def case_fit(ctx, res, p):
     res.count("fit:" + est_name)
     res.count("fit:data=" + kind)
     res.count("fit:outcome=" + cls.split(":")[0])
+    if p.get("expect") and cls == p["expect"]:
+        return      # regression case: the (repaired) refusal the witness now has to meet
     if cls.startswith("Internal"):
         sig = f"C20:fit-internal:{est_name}:{kind}:{type(e).__name__}"
         if est_name == "dimensionality" and kind in ("1d", "list1d") and isinstance(e, IndexError):
@@ -910,7 +934,7 @@ def case_fit(ctx, res, p):
                 and not (est_name == "dimensionality" and kind == "dup_some"):
             res.oracle_fail(f"{est_name} estimator refused '{kind}' data ({cls}: {str(e)[:80]})", p,
                             signature=f"C20:fit-refused:{est_name}:{kind}")
-        if kind in ("1d", "list1d") and est_name in ("density", "function"):
+        if kind in ("1d", "list1d") and est_name in ("density", "function", "dimensionality"):
             res.oracle_fail(f"{est_name} estimator refused one-dimensional input ({cls})", p,
                             signature=f"C20:fit-1d-refused:{est_name}")
         return
@@ -963,7 +987,10 @@ def run_case(ctx, res, p):
 
 
 def witnesses():
-    """The counter-example witnesses of the Lean `_counterexample` theorems, replayed on the implementation."""
+    """Regression cases: the witnesses of the five defects repaired in /repo (ints outside int64 / the double range,
+    non-string gp_type, 1-D input to DimensionalityEstimator, empty time-sensitive data, infinite learning rate).
+    They must now be refused cleanly (resp. accepted for the 1-D input); on a tree without the repairs they are
+    reported as violations."""
     return [
         {"op": "scalar", "validator": "float_or_int", "value": ["I", str(2 ** 63)]},
         {"op": "scalar", "validator": "float", "value": ["I", str(2 ** 63)]},
@@ -974,7 +1001,16 @@ def witnesses():
         {"op": "fit", "estimator": "dimensionality", "data": "1d", "n": 20, "seed": 1},
         {"op": "fit", "estimator": "time", "data": "empty", "n": 20, "seed": 1},
         {"op": "fit", "estimator": "density", "data": "clean", "n": 20, "seed": 1,
-         "extra": {"init_learn_rate": F(float("inf")), "optimizer": ["S", "adam"], "n_iter": ["I", "3"]}},
+         "extra": {"init_learn_rate": F(float("inf")), "optimizer": ["S", "adam"], "n_iter": ["I", "3"]},
+         "expect": "ValueError"},
+        {"op": "ctor", "args": {"init_learn_rate": F(float("inf"))}},
+        {"op": "ctor", "args": {"jitter": F(float("inf"))}},
+        {"op": "ctor", "args": {"ls": ["S", "inf"]}},
+        {"op": "ctor", "args": {"rank": ["I", str(-2 ** 63 - 1)]}},
+        {"op": "ctor", "args": {"d": ["I", str(10 ** 400)]}},
+        {"op": "ctor", "args": {"landmarks": ["L", [["L", [["I", str(10 ** 400)], ["I", "1"]]]]]}},
+        {"op": "scalar", "validator": "positive_float:inf", "value": F(float("inf"))},
+        {"op": "fit", "estimator": "dimensionality", "data": "list1d", "n": 20, "seed": 1},
     ]
 
 
@@ -1085,9 +1121,10 @@ CLAIM = {
             "refusal (pivot <= 0 => ValueError, never a NaN factor); mle well-defined for positive distances. Tied to /repo by "
             "running the real validators / constructor / predictors / factorisations on the value grammar and comparing outcome "
             "class and value exactly with the model driver, plus independent numpy oracles and fits of the 4 estimators on dirty data.",
-    "note": "End-to-end finiteness of fitted values/predictions is a float-range statement: tests only. Internal-error classes found "
-            "on the pinned tree (int overflow in validators, non-string gp_type, 1-D input to DimensionalityEstimator, empty "
-            "time-sensitive data, init_learn_rate=inf) are mirrored by the model where modelled and recorded in known_findings.json.",
+    "note": "End-to-end finiteness of fitted values/predictions is a float-range statement: tests only. The five defects found earlier "
+            "(int overflow in validators, non-string gp_type, 1-D input to DimensionalityEstimator, empty time-sensitive data, "
+            "init_learn_rate=inf) are repaired in /repo; model and theorems state the repaired behaviour at full strength "
+            "(validators_no_internal, gp_from_string_no_internal, positive_float_finite) and the old witnesses are regression cases.",
     "technique": "Lean 4 proof (case analysis over value syntax, list induction over extended floats) + exhaustive differential "
                  "correspondence over the value grammar + independent oracles + dirty-data fits",
 }
